@@ -105,23 +105,41 @@ def build(desc, variant):
     return m
 
 
+_WRONG_SEEDS = [0, 0, 1, 2, 7, 1000, 2 ** 31]      # 0: the literal seed 0
+_OP_KINDS = (['run'] * 5 + ['run-partial-batch'] * 2 + ['remove-store'] * 2 + ['replace-summary'] * 2 + ['replace-distance'] * 3
+             + ['reopen'] * 3 + ['wrong-batch-size', 'wrong-seed', 'fresh-sampler-no-seed'])
+
+
+def _norm_op(t):
+    kind, a = t
+    if kind in ('run', 'run-partial-batch'):
+        return (kind, 1 + a % 6)
+    if kind == 'remove-store':
+        return (kind, a % 11)
+    if kind == 'replace-summary':
+        return (kind, a % 3)
+    if kind == 'replace-distance':
+        return (kind, 1 + a % 2)
+    if kind == 'reopen':
+        return (kind, 0)
+    if kind == 'wrong-batch-size':
+        return (kind, 1 + a % 3)
+    if kind == 'wrong-seed':
+        return (kind, _WRONG_SEEDS[a % len(_WRONG_SEEDS)])
+    return (kind, 1 + a % 4)
+
+
 def strat(tier):
-    op = st.one_of(
-        st.tuples(st.just('run'), st.integers(1, 6)),
-        st.tuples(st.just('run'), st.integers(1, 6)),
-        st.tuples(st.just('run-partial-batch'), st.integers(1, 6)),
-        st.tuples(st.just('remove-store'), st.integers(0, 10)),
-        st.tuples(st.just('replace-summary'), st.integers(0, 2)),
-        st.tuples(st.just('replace-distance'), st.integers(1, 2)),
-        st.tuples(st.just('reopen'), st.just(0)),
-        st.tuples(st.just('wrong-batch-size'), st.integers(1, 3)),
-        st.tuples(st.just('wrong-seed'), st.sampled_from([0, 0, 1, 2, 7, 1000, 2 ** 31])),   # 0: the literal seed 0
-        st.tuples(st.just('fresh-sampler-no-seed'), st.integers(1, 4)),
-    )
+    # weighted kinds through sampled_from (repeating an alternative inside one_of does not weight it)
+    op = st.tuples(st.sampled_from(_OP_KINDS), st.integers(0, 10 ** 6)).map(_norm_op)
     return st.fixed_dictionaries({
         'pnames': st.lists(st.sampled_from(['t', 'a', 'z', 'Sx', 'b2', 'U']), min_size=1, max_size=2, unique=True),
         'width': st.integers(1, 3),
         'layout': st.sampled_from(['C', 'C', 'F', 'strided']),
+        # what happens to the store of a replaced node: removed, wiped and kept as a stored node (a fresh store is made on demand), or just remove_store()
+        'replace_mode': st.sampled_from(['restore-fresh', 'forget']),
+        # on-disk pools: close (= save) + reopen the pool after EVERY operation of the history (runs, removals, replacements)
+        'reopen_after_edit': st.booleans(),
         # ('disc-param', a parameter feeding only the discrepancy, is not a valid elfi model: observed data would be stochastic)
         'late': st.sampled_from([None, None, None, 'noise-sim']),
         'late_name': st.sampled_from(['zz', 'A0', 'T', 'q']),
@@ -292,7 +310,13 @@ def run_case(case):
                     affected = ['d']
                 with must_not_raise(P, 'removing the stores of the replaced nodes; ' + octx):
                     for node in affected:
-                        if node in pool.stores:
+                        if node in pool.stores and case.get('replace_mode') == 'forget':
+                            # the plain documented way: remove_store() and nothing else (its files stay where they are)
+                            st_ = pool.remove_store(node)
+                            if hasattr(st_, 'close'):
+                                st_.close()
+                            labels.append('replaced-node-no-longer-stored')
+                        elif node in pool.stores:
                             st_ = pool.remove_store(node)
                             if hasattr(st_, 'clear') and st_ is not None:
                                 st_.clear()
@@ -305,7 +329,7 @@ def run_case(case):
                                         os.remove(fn)
                             pool.stores[node] = None      # keep the node stored: a fresh store is made on demand
                 labels.append('downstream-replaced')
-            elif op == 'reopen':
+            if op == 'reopen' or (case.get('reopen_after_edit') and op in ('run', 'run-partial-batch', 'fresh-sampler-no-seed', 'remove-store', 'replace-summary', 'replace-distance')):
                 if case['disk'] and pool.has_context:
                     with must_not_raise(P, 'close/open; ' + octx):
                         pool.close()
@@ -315,7 +339,8 @@ def run_case(case):
                 if pool.has_context:
                     before = held_now()
                     m = build(desc, variant)
-                    kw = {'batch_size': bs + arg, 'seed': seed} if op == 'wrong-batch-size' else {'batch_size': bs, 'seed': 0 if (arg == 0 and seed != 0) else (seed + max(arg, 1)) % (2 ** 32)}
+                    # (a wrong batch_size is tried with the right seed and, for arg 3, without any seed)
+                    kw = ({'batch_size': bs + arg, 'seed': seed} if arg != 3 else {'batch_size': bs + arg}) if op == 'wrong-batch-size' else {'batch_size': bs, 'seed': 0 if (arg == 0 and seed != 0) else (seed + max(arg, 1)) % (2 ** 32)}
                     try:
                         elfi.Rejection(m['d'], pool=pool, output_names=outs, **kw).sample(n, n_sim=max(n, bs), bar=False)
                     except ValueError:
